@@ -1,0 +1,53 @@
+//go:build verif
+
+// Contracts for the govc verifier (see /verif/DESIGN.md). Comment-only file: with the
+// "verif" build tag off it is not compiled; with it on it contains only the package clause.
+
+package externaltoc
+
+// ---- C03 (also C19): the external TOC handed out for a blob is the TOC of that blob ----
+// WriteTOCAndFooter compresses the TOC of the blob being finished into a buffer made by this very call and keeps that
+// buffer for WriteTOCTo; the digest it reports is the digest of the same serialised TOC. A compressor that is used for
+// a second blob therefore hands out the second blob's TOC only (nothing of an earlier TOC is left in front of it: readers
+// take the first gzip member).
+//   tocJSONOf        the byte slice json.MarshalIndent produced last
+//   gzSink           the writer the last gzip writer was created over
+//   tarBody          the byte slice written last as a tar entry body
+//@ ghost tocJSONOf ref quiet
+//@ ghost gzSink ref quiet
+//@ ghost tarBody ref quiet
+//@ uf digestOfBytes(ref) string
+//@ func encoding/json.MarshalIndent
+//@   trusted
+//@   modifies tocJSONOf
+//@   ensures result1 == nil ==> tocJSONOf == ref(result0)
+//@ func compress/gzip.NewWriterLevel
+//@   trusted
+//@   modifies gzSink
+//@   ensures result0 != nil && gzSink == payload(w)
+//@ func archive/tar.NewWriter
+//@   trusted
+//@   modifies nothing
+//@   ensures result != nil
+//@ func archive/tar.(*Writer).WriteHeader
+//@   trusted
+//@   modifies nothing
+//@ func archive/tar.(*Writer).Write
+//@   trusted
+//@   modifies tarBody
+//@   ensures tarBody == ref(b)
+//@ func archive/tar.(*Writer).Close
+//@   trusted
+//@   modifies nothing
+//@ func compress/gzip.(*Writer).Close
+//@   trusted
+//@   modifies nothing
+//@ func github.com/opencontainers/go-digest.FromBytes
+//@   trusted
+//@   modifies nothing
+//@   ensures result == digestOfBytes(ref(p))
+//@ func (gc *GzipCompressor) WriteTOCAndFooter
+//@   props C03,C19
+//@   requires gc != nil && w != nil
+//@   ensures[C03,C19] result1 == nil ==> gc.buf != nil && fresh(gc.buf) && gzSink == ref(gc.buf)
+//@   ensures[C03,C19] result1 == nil ==> tarBody == tocJSONOf && result0 == digestOfBytes(tocJSONOf)
